@@ -72,6 +72,17 @@ func C01(p *load.Prog, r *report.Report) {
 			r.Undecided("C01.ladder", construct, pos, "receiver is not a formal group element: "+w)
 			return
 		}
+		// a path that assumes the receiver is the identity (its formal z coordinate is zero): [k]O = O, any multiple of P is right
+		if pz, dec := known(it, absint.ISZ(d.coordsOf(P)[2])); dec && pz {
+			onlyP := true
+			for name := range g {
+				if name != "P" {
+					onlyP = false
+				}
+			}
+			r.Check(onlyP, "C01.identity-path", construct, pos, "on a path where P is the identity the receiver is a multiple of P, i.e. the identity", "on a path where P is the identity the receiver is "+g.String())
+			return
+		}
 		// what does this path assume about k?
 		isOne := it.ApplyTerm(absint.ISZ(k.Sub(pInt(FN, 1))))
 		coef := g["P"]
